@@ -10,7 +10,6 @@ Code inspired by/based on https://github.com/tomchy/suit-composer.
 from __future__ import annotations
 from dataclasses import dataclass
 from typing import cast, Any
-from collections.abc import Mapping
 import functools
 import binascii
 import logging
@@ -155,34 +154,52 @@ class SuitObject(PrettyPrintHelperMixin):
             )
 
     @staticmethod
-    def reject_shared_values(obj: Any) -> None:
-        """Reject decoded data in which one object is referenced more than once.
+    def reject_sharing_tags(cbstr: bytes) -> None:
+        """Reject the value sharing (28, 29) and string reference (25, 256) tags before the data is decoded.
 
-        cbor2 resolves the value sharing (28, 29) and string reference (25, 256) tags into repeated references
-        to a single object. Serializing such a structure again expands every reference, so a short input may
-        request time and memory exponential in its length. SUIT envelopes do not use these tags.
+        cbor2 resolves these tags into repeated references to a single object. Hashing such a structure (as a map
+        key) or serializing it again expands every reference, so a short input may request time and memory
+        exponential in its length. SUIT envelopes do not use these tags. Only the heads of the first data item are
+        visited, the content of strings is skipped.
         """
-        seen = {}
-        pending = [obj]
-        while pending:
-            item = pending.pop()
-            if isinstance(item, (str, bytes)):
-                if len(item) < 2:
-                    continue
-            elif isinstance(item, cbor2.CBORTag):
-                pending.append(item.value)
-            elif isinstance(item, Mapping):
-                pending.extend(item.keys())
-                pending.extend(item.values())
-            elif isinstance(item, (list, tuple, set, frozenset)):
-                if len(item) == 0:
-                    continue
-                pending.extend(item)
-            else:
+        index = 0
+        pending = [1]  # number of items still expected at every open nesting level, None for indefinite length
+        while index < len(cbstr):
+            while pending and pending[-1] == 0:
+                pending.pop()
+            if not pending:
+                return
+            major, info = cbstr[index] >> 5, cbstr[index] & 31
+            index += 1
+            if major == 7 and info == 31:
+                if pending[-1] is not None:
+                    return  # misplaced break: left to the decoder
+                pending.pop()
                 continue
-            if id(item) in seen:
-                raise ValueError("Shared values are not supported!")
-            seen[id(item)] = True
+            if pending[-1] is not None:
+                pending[-1] -= 1
+            argument = info
+            if 24 <= info <= 27:
+                width = 1 << (info - 24)
+                argument = int.from_bytes(cbstr[index : index + width], "big")
+                index += width
+            elif info > 27:
+                if info != 31 or major in (0, 1, 6):
+                    return  # reserved encoding: left to the decoder
+                argument = None
+            if major in (2, 3):
+                if argument is None:
+                    pending.append(None)
+                else:
+                    index += argument
+            elif major == 4:
+                pending.append(argument)
+            elif major == 5:
+                pending.append(None if argument is None else 2 * argument)
+            elif major == 6:
+                if argument in (25, 28, 29, 256):
+                    raise ValueError("Shared values and string references are not supported!")
+                pending.append(1)
 
     @staticmethod
     def deserialize_cbor(cbstr: bytes) -> Any:
@@ -190,9 +207,8 @@ class SuitObject(PrettyPrintHelperMixin):
         # Ensure that cbor2.loads() will not consume all the available memory
         SuitObject.validate_cbor(cbstr)
         try:
-            obj = cbor2.loads(cbstr)
-            SuitObject.reject_shared_values(obj)
-            return obj
+            SuitObject.reject_sharing_tags(cbstr)
+            return cbor2.loads(cbstr)
         except ImportError as err:
             # Can occur due to possible incompatibilities in packages between virtual environment and system scope
             # (seen on Windows, where cbor2 was installed globally and in virtual environment)
